@@ -155,13 +155,17 @@ func (s *streamWriter) init() {
 			}
 		default:
 			slog.Debug("remote using TLS for writing")
-			rawconn, err = tls.Dial("tcp", s.writeToAddr, s.tlsConfig)
+			// tls.Dial returns a typed nil on failure, assigning that to rawconn
+			// would make the nil check below miss it.
+			var tlsconn *tls.Conn
+			tlsconn, err = tls.Dial("tcp", s.writeToAddr, s.tlsConfig)
 			if err != nil {
 				d := time.Duration(delay * time.Duration(i*2))
 				slog.Error("tls.Dial", "err", err, "remote", s.writeToAddr, "retry", i, "max", maxRetries, "delay", d)
 				time.Sleep(d)
 				continue
 			}
+			rawconn = tlsconn
 		}
 		break
 	}
